@@ -121,6 +121,8 @@ void HttpServer::serve(Socket client)
 						response.setHeader("Content-Range", "+");
 						response.putFile(file.path(), begin, end);
 					}
+					else // several ranges or another unit: not supported, so the header is ignored (RFC 7233 3.1)
+						response.putFile(file.path());
 				}
 				else
 					response.putFile(file.path());
